@@ -222,7 +222,7 @@ theorem accept_ainv {c c' : Acc} (e : Ev) (h : AInv c) (ha : accept c e = some c
     · simp at ha
     · simp only [Option.some.injEq] at ha; subst ha
       exact ⟨h.arq, h.drained, h.hand, h.readLe, h.eofI, fun _ => rfl, h.p1, h.p2, h.p4, h.o1⟩
-  | closeSend =>
+  | closeSend ms =>
     simp only [accept] at ha
     split at ha
     · simp at ha
@@ -236,20 +236,19 @@ theorem accept_ainv {c c' : Acc} (e : Ev) (h : AInv c) (ha : accept c e = some c
           simp only [Option.some.injEq] at ha; subst ha
           exact ⟨h.arq, h.drained, h.hand, h.readLe, h.eofI, fun _ => hcr', fun _ _ => hq,
             fun _ _ => rfl, fun _ _ _ => rfl, h.o1⟩
-        · simp only [Option.some.injEq] at ha; subst ha
-          refine ⟨h.arq, h.drained, h.hand, h.readLe, h.eofI, fun _ => hcr', ?_, ?_, ?_, ?_⟩ <;>
-            (intro hp; exact absurd hp (by simp))
+        · split at ha
+          · simp at ha
+          · simp only [Option.some.injEq] at ha; subst ha
+            refine ⟨h.arq, h.drained, h.hand, h.readLe, h.eofI, fun _ => hcr', ?_, ?_, ?_, ?_⟩ <;>
+              (intro hp; exact absurd hp (by simp))
   | closeRet =>
     simp only [accept] at ha
     split at ha
+    · rename_i hg
+      simp only [Bool.and_eq_true] at hg
+      simp only [Option.some.injEq] at ha; subst ha
+      exact ⟨h.arq, h.drained, h.hand, h.readLe, h.eofI, h.sentReq, h.p1, fun _ _ => hg.2, h.p4, h.o1⟩
     · simp at ha
-    · split at ha
-      · rename_i hs
-        simp only [Option.some.injEq] at ha; subst ha
-        exact ⟨h.arq, h.drained, h.hand, h.readLe, h.eofI, h.sentReq, h.p1, fun _ _ => hs, h.p4, h.o1⟩
-      · simp only [Option.some.injEq] at ha; subst ha
-        refine ⟨h.arq, h.drained, h.hand, h.readLe, h.eofI, h.sentReq, ?_, ?_, ?_, ?_⟩ <;>
-          (intro hp; exact absurd hp (by simp))
   | closeDeliver =>
     simp only [accept] at ha
     split at ha
